@@ -11,8 +11,11 @@ HMODULE = "H_C10"
 SHARD = 80
 RULE = ("fresh weights of every library initializer, observed three ways (initializer class / lib function called "
         "directly, create_kernel_initializer(...)(shape), freshly built layer's kernel) and compared in Coq with "
-        "the model: Lattice (latgen configurations rank 1-4, sizes 2-4, units 1-3, monotonicities given as ints / "
-        "strings / None, unimodalities, joint unimodalities merged, every other constraint family alongside, "
+        "the model: Lattice (latgen configurations rank 1-4, sizes 2-5, units 1-3, monotonicities given as ints / "
+        "strings / None, unimodalities (unimodal sizes up to 8), joint unimodalities merged - incl. ~5% two groups "
+        "that together cover all features under the default initializer (no random_uniform fall-back) and ~5% a group "
+        "containing a dimension that also has a REGULAR unimodality of the same / the opposite direction (the merge "
+        "lets the joint direction win) -, every other constraint family alongside, "
         "output bounds none / one-sided / two-sided / negative, init_min/init_max overrides, all initializer ids, "
         "a fresh seed per case for the random ones: in-level orders and sorted samples are recovered from the "
         "kernel and their oracle hypotheses checked in Coq), default_init_params, PWLCalibration (2-6 unequally "
@@ -54,6 +57,17 @@ def all_unimodalities(cfg):
   for dims, direction in cfg["juni"]:
     for d in dims:
       out[d] = 1 if direction == "valley" else -1
+  return out
+
+
+def juni_overwrites(cfg):
+  """0: no joint group touches a dimension with a regular unimodality; 1: it does, same direction; 2: some
+  dimension's regular direction is overwritten by the opposite one (create_kernel_initializer merge)."""
+  out = 0
+  for dims, direction in cfg["juni"]:
+    for d in dims:
+      if cfg["uni"][d]:
+        out = max(out, 2 if cfg["uni"][d] != (1 if direction == "valley" else -1) else 1)
   return out
 
 
@@ -136,7 +150,20 @@ def _d15(case):
   return all(c.startswith("ordering pair") or c.startswith("assert_constraints") for c in _clauses(case))
 
 
+def _juni_overwrite(case):
+  """Linear initializer, a joint unimodality group contains a dimension whose REGULAR unimodality has the other
+  direction: create_kernel_initializer's merge lets the joint direction win, so the fresh kernel violates the regular
+  unimodality (and only that). Takes effect only when known_findings.json lists the class."""
+  d = case.desc
+  if d.get("kind") != "lattice" or d.get("route") != "layer" or resolved(d) != 0:
+    return False
+  if juni_overwrites(d["cfg"]) != 2:
+    return False
+  return all(c.startswith("unimodality") for c in _clauses(case))
+
+
 KNOWN_CLASSES = {
+    "juni_overwrites_regular_unimodality": _juni_overwrite,
     "linear_init_violates_trapezoid_or_dominance": _d6,
     "random_monotonic_init_ignores_other_constraints": _d24,
     "joint_unimodality_all_features_random_uniform_init": _d25,
@@ -174,6 +201,9 @@ def gen_lattice(rng, i):
       if not cfg["monos"][d] and rng.random() < 0.6:
         if cfg["sizes"][d] < 3:
           cfg["sizes"][d] = rng.choice([3, 4, 5])
+        big = rng.choice([6, 7, 8])
+        if rng.random() < 0.4 and int(np.prod(cfg["sizes"])) // cfg["sizes"][d] * big <= 160:
+          cfg["sizes"][d] = big      # unimodal sizes above 5 (peak / valley centre at size // 2)
         cfg["uni"][d] = rng.choice([-1, 1])
   elif style < 0.62:    # one joint unimodality group over all features (falls back to random_uniform)
     rank = len(cfg["sizes"])
@@ -185,6 +215,32 @@ def gen_lattice(rng, i):
     dims = list(range(rank))
     rng.shuffle(dims)
     cfg["juni"] = [[dims, rng.choice(["valley", "peak"])]]
+  elif style < 0.67:    # TWO joint unimodality groups that together cover all features (no random_uniform fall-back)
+    rank = min(max(2, len(cfg["sizes"])), 3)
+    sizes = ([max(3, s) for s in cfg["sizes"]] + [3, 3])[:rank]
+    dims = list(range(rank))
+    rng.shuffle(dims)
+    cut = rng.randint(1, rank - 1)
+    cfg.update(sizes=sizes, monos=[0] * rank, edge=[], trap=[], uni=[0] * rank, mdom=[], rdom=[], jmono=[],
+               juni=[[dims[:cut], rng.choice(["valley", "peak"])], [dims[cut:], rng.choice(["valley", "peak"])]])
+  elif style < 0.72:    # a joint unimodality group that contains a dimension with a REGULAR unimodality (merge overwrites)
+    # (rank >= 2 and the group never covers all features: that is the random_uniform fall-back class above)
+    rank = min(max(2, len(cfg["sizes"])), 3)
+    sizes = ([max(3, s) for s in cfg["sizes"]] + [3])[:rank]
+    d0 = rng.randrange(rank)
+    direction = rng.choice([-1, 1])
+    uni = [0] * rank
+    uni[d0] = direction
+    others = [d for d in range(rank) if d != d0]
+    group = [d0] + rng.sample(others, rng.randint(0, len(others) - 1))
+    rng.shuffle(group)
+    # mostly the OTHER direction (the joint group overwrites the regular entry), sometimes the same one
+    jdir = -direction if rng.random() < 0.75 else direction
+    rest = [d for d in others if d not in group]
+    if rest and rng.random() < 0.5:
+      uni[rest[0]] = rng.choice([-1, 1])
+    cfg.update(sizes=sizes, monos=[0] * rank, edge=[], trap=[], uni=uni, mdom=[], rdom=[], jmono=[],
+               juni=[[group, "valley" if jdir == 1 else "peak"]])
   cfg["omin"], cfg["omax"] = lattice_bounds(rng)
   route = rng.choice(["layer", "layer", "layer", "create", "class"])
   ident = rng.choice(LIN_IDS + RND_IDS + UOL_IDS + UOL_IDS[:1])
@@ -507,6 +563,12 @@ def eval_lattice(tf, tfl, d):
       coq_juni(cfg["juni"]), copt(cfg["omin"]), copt(cfg["omax"]), ov, coq_order(order), cql(samples),
       cnat(which_impl), cql(W.ravel()) if which_impl != 2 else "[]")
   fam = "mb" if only_mono_bounds(cfg) else "other"
+  if juni_overwrites(cfg):
+    fam += "_juniOverwritesUni%s" % ("Opposite" if juni_overwrites(cfg) == 2 else "Same")
+  if len(cfg["juni"]) == 2 and set(cfg["juni"][0][0]) | set(cfg["juni"][1][0]) == set(range(rank)):
+    fam += "_juniTwoGroupsCoverAll"
+  if any(u and s > 5 for u, s in zip(au, sizes)):
+    fam += "_uniSizeAbove5"
   klass = "lat_%s_%s_%s_u%d" % (d["route"], ["lin", "rnd", "keras"][which_impl], fam, units)
   return Case(d, coq=coq, pred_fail="; ".join(fails) if fails else None, nontrivial=bool(np.ptp(W) > 0), klass=klass,
               info={"kernel": W.ravel().tolist(), "initializer": tname})
